@@ -5,5 +5,6 @@ CONSTANTS
   Env = {}
   SweepFirst = 4
   MaxFields = 48
-  TruncEveryMax = 400
+  TruncEveryMax = 3000
+  RepeatMaxBytes = 3000000
 INVARIANTS StepsAgree IdentWellFormed PlanWellFormed Emit
